@@ -15,6 +15,8 @@ class Env:
         self.tmp = os.path.join(V.BUILD, "tmp", "%s-%d" % (run.pid, os.getpid()))
         shutil.rmtree(self.tmp, ignore_errors=True)
         os.makedirs(self.tmp)
+        import atexit
+        atexit.register(shutil.rmtree, self.tmp, True)     # replays are copied to replays/; nothing else is kept
         self.gate = V.proof_gate(GROUP, propfile, force=False, chk=(run.tier == "thorough" and os.environ.get("VERIF_COQCHK", "1") == "1"))
         run.coverage.update(obligations=self.gate["obligations"], discharged=self.gate["discharged"],
                             checker_cmd="make -C coq/fs (coq_makefile, full .vo) ; coqc %s ; Print Assumptions" % propfile,
